@@ -256,6 +256,20 @@ def make_cases(ctx: Ctx) -> list[dict]:
         cases.append({'asn4': bases[bi]['asn4'], 'nlri': bases[bi]['kind'], 'code': -3, 'kind': 'fuzz', 'body': rig.join_body(wd, blk, nlri), 'origin': 'fuzz'})
     for n in (10, 400, 1200):
         cases.append({'asn4': True, 'nlri': 'v4', 'code': 100, 'kind': f'many-{n}', 'body': f7_body(n), 'origin': 'many'})
+    # the same corruptions BEHIND many attributes that count for nothing (the same unknown optional non-transitive
+    # attribute of no length, repeated: RFC 7606 3.g discards all but the first): how far into the block an attribute
+    # sits does not change what it is.  255 / 256 / 257 / 300 / 700 of them in front, and the malformed one in front.
+    filler = bytes([0x80, 0xC8, 0x00])
+    shift = [c for c in cases if c['origin'] in ('minimal', 'random') and c['kind'] != 'none']
+    rng.shuffle(shift)
+    for c in shift[: (120 if ctx.tier == 'quick' else 4000)]:
+        wd, blk, nlri = rig.split_body(c['body'])
+        for n in (rng.choice([255, 256, 257]), rng.choice([300, 700])):
+            for front in (True, False):
+                nb = (filler * n + blk) if front else (blk + filler * n)
+                body = rig.join_body(wd, nb, nlri)
+                if len(body) + 19 <= 4096:
+                    cases.append(dict(c, body=body, kind=c['kind'], origin='behind-many' if front else 'before-many'))
     return cases
 
 
